@@ -1665,7 +1665,7 @@ def _aux_coords(ydim, xdim):
             'row_label': (ydim, np.arange(H) * 10), 'cell_id': ((ydim, xdim), np.arange(H * W).reshape(H, W))}
 
 
-def _mk_raster(rng, dtype, layout, backend, kind='data', name='r', attrs_kind='res', dims_kind='yx'):
+def _mk_raster(rng, dtype, layout, backend, kind='data', name='r', attrs_kind='res', dims_kind='yx', chunks=None):
     """-> (DataArray, base ndarray that owns the memory).  attrs_kind: 'res' (valid res attribute), 'nores' (attrs
     without res: the cell size must be derived from the coordinates), 'empty' (no attrs at all)"""
     import numpy as np
@@ -1684,7 +1684,7 @@ def _mk_raster(rng, dtype, layout, backend, kind='data', name='r', attrs_kind='r
         data = arr
         if backend == 'dask':
             import dask.array as da
-            data = da.from_array(arr, chunks=(3, 3, 4))
+            data = da.from_array(arr, chunks=(3,) + tuple(chunks or (3, 4)))
         agg = xr.DataArray(data, dims=['layer', ydim, xdim], name=name,
                            coords=dict(_aux_coords(ydim, xdim), layer=np.array([10, 20, 30]),
                                        **{ydim: np.arange(H, dtype='float64')[::-1] * 2.0,
@@ -1697,7 +1697,7 @@ def _mk_raster(rng, dtype, layout, backend, kind='data', name='r', attrs_kind='r
     data = arr
     if backend == 'dask':
         import dask.array as da
-        data = da.from_array(arr, chunks=(3, 4))
+        data = da.from_array(arr, chunks=tuple(chunks or (3, 4)))
     agg = xr.DataArray(data, dims=[ydim, xdim], name=name,
                        coords=dict(_aux_coords(ydim, xdim), **{ydim: np.arange(H, dtype='float64')[::-1] * 2.0,
                                                                xdim: np.arange(W, dtype='float64') * 2.0}),
@@ -1913,7 +1913,9 @@ def _observe(case):
             dt = DTYPES[(DTYPES.index(dt) + 3 * ri) % len(DTYPES)]
             lo = LAYOUTS[(LAYOUTS.index(lo) + ri) % len(LAYOUTS)]
         rasters[p], bases[p] = _mk_raster(rng, dt, lo, case['backend'], kind, name=p,
-                                          attrs_kind=case.get('attrs', 'res'), dims_kind=case.get('dims', 'yx'))
+                                          attrs_kind=case.get('attrs', 'res'), dims_kind=case.get('dims', 'yx'),
+                                          # one argument position (each in turn) is chunked differently from the others
+                                          chunks=(2, 7) if case.get('chunkpos') == ri else None)
     extra = ent['extra'](rng, case['variant'])
     extra_snap = _copy.deepcopy({k: v for k, v in extra.items() if not callable(v)})
     snaps = {p: _snap_raster(rasters[p], bases[p]) for p in rasters}
@@ -2167,6 +2169,19 @@ def gen_cases(ctx, only=None, full=False):
         if fn in names:
             cases.append(dict(kind='call', fn=fn, backend=be, dtype=dt, layout=lo, variant=var, attrs=at,
                               dataseed=rng.randrange(1 << 30)))
+    # multi-raster functions on Dask with per-argument DIFFERENT chunkings: each argument position in turn differs
+    # from the others (the wrappers re-chunk the caller's rasters; their VALUES must not change — the inputs are
+    # computed again after the call).  Quick: every position of two 3-raster and one 2-raster function, plus a rotating
+    # position for the others; thorough: every position of every multi-raster function.
+    multi_fns = [n for n in names if len(reg[n]['rasters']) >= 2 and reg[n].get('dask_ok', True) and not reg[n].get('dataset')]
+    always = ('multispectral.evi', 'multispectral.true_color', 'multispectral.ndvi')
+    for mi, fn in enumerate(multi_fns):
+        nr = len(reg[fn]['rasters'])
+        poss = range(nr) if (full or fn in always) else [(mi + rng.randrange(nr)) % nr]
+        for pos in poss:
+            cases.append(dict(kind='call', fn=fn, backend='dask', dtype=DTYPES[(mi + pos) % len(DTYPES)],
+                              layout=LAYOUTS[(mi + pos) % 4], variant=0, attrs='res', chunkpos=pos,
+                              dataseed=rng.randrange(1 << 30)))
     nseq = (60 if full else 6) if only is None else 0
     for i in range(nseq):
         n = rng.randint(2, 4)
@@ -2261,6 +2276,8 @@ def evaluate(ctx, obs, pred):
     ctx.count('%s/%s/%s' % (c['fn'].split('.')[-1], c['backend'], 'error' if obs['error'] else 'ok'))
     ctx.count('attrs/%s' % c.get('attrs', 'res'))
     ctx.count('dims/%s' % c.get('dims', 'yx'))
+    if c.get('chunkpos') is not None:
+        ctx.count('differently chunked argument/#%d' % c['chunkpos'])
     ctx.count('name=/%s' % ('given' if c.get('named') else 'default'))
     ctx.count('multi-raster dtypes/%s' % ('mixed' if c.get('mix') else 'same'))
     ctx.count('dtype/%s' % c['dtype'])
@@ -2372,7 +2389,7 @@ def search(ctx):
 
 
 def replay_case(ctx, case):
-    case = {k: v for k, v in case.items() if k in ('kind', 'fn', 'backend', 'dtype', 'layout', 'variant', 'dataseed', 'sequence', 'attrs', 'named', 'mix', 'dims')}
+    case = {k: v for k, v in case.items() if k in ('kind', 'fn', 'backend', 'dtype', 'layout', 'variant', 'dataseed', 'sequence', 'attrs', 'named', 'mix', 'dims', 'chunkpos')}
     if 'sequence' in case and case.get('kind') == 'sequence':
         case['sequence'] = [tuple(x) for x in case['sequence']]
     ctx.case(case)
